@@ -47,7 +47,7 @@ def configs(tier):
             c = dict(base)
             c[k] = v
             out.append(c)
-    if tier == "thorough":   # deviation bound 2: every pair of deviations
+    if vlib.wide(tier):   # deviation bound 2: every pair of deviations
         for i, k1 in enumerate(keys):
             for k2 in keys[i + 1:]:
                 for v1 in AXES[k1][1:]:
@@ -261,8 +261,8 @@ def check_file(res, case, key, doc, c, rp):
 
 def structure(res, tier, exe_hook):
     """record structure: every behaviour of the model without signals, replayed on the hooked binary"""
-    lasts = [0, 1, 3, 4, 5, 8, 11] if tier == "thorough" else [0, 4, 5, 11]
-    outs = [0, 1, 2, 3, 5] if tier == "thorough" else [1, 2, 3, 5]
+    lasts = [0, 1, 3, 4, 5, 8, 11] if vlib.wide(tier) else [0, 4, 5, 11]
+    outs = [0, 1, 2, 3, 5] if vlib.wide(tier) else [1, 2, 3, 5]
     saves = [0, 1, 2]
     terms, st = conform.run_tlc("c10", 0, lasts, outs, saves, [True, False], [True, False])
     res.coverage["tlc"] = dict(generated=st["states"], distinct=st["distinct"], depth=st["depth"], terminal_behaviours=len(terms), ok=st["ok"])
